@@ -247,7 +247,8 @@ def build_driver(src):
                 shutil.copy(os.path.join(C.HARNESS, "c13drv", f), os.path.join(moddir, "c13drv", f))
         open(os.path.join(moddir, "c13drv", "gen_subjects.go"), "w").write(src)
         env = dict(C.GOENV, CGO_ENABLED="1")
-        rc, out = C.sh(["go", "build", "-race", "-o", binp, "./c13drv"], cwd=moddir, env=env, timeout=1800)
+        # -l: no inlining, so that the frames of a race report carry the source line of the access itself
+        rc, out = C.sh(["go", "build", "-race", "-gcflags=all=-l", "-o", binp, "./c13drv"], cwd=moddir, env=env, timeout=1800)
     return rc == 0, out, binp
 
 
@@ -275,6 +276,8 @@ def parse_reports(stderr, subject):
             if rel:
                 tops.append(rel[0])
             allf += rel
+        if not allf and "fatal error: concurrent map" in text:
+            continue   # a report cut short by the runtime's own map check; the fatal error is recorded by the caller
         reports.append(dict(pair=pair, subject=subject, text=text, tops=tops, frames=allf))
     return reports
 
@@ -286,7 +289,7 @@ def run_subject(binp, name, iters, rounds, pair=None):
     """run all pairs of one subject; a pair that kills the process with the runtime's own
     `concurrent map ...` check (a data race the runtime detects itself) is recorded as a report and
     the run resumes with the next pair"""
-    env = dict(os.environ, GORACE="halt_on_error=0 history_size=2")
+    env = dict(os.environ, GORACE="halt_on_error=0 history_size=6")
     t0 = time.time()
     all_err, reports, problems, done_from, rc, fatal_pairs = "", [], [], 0, 0, 0
     base = [binp, "-subject", name, "-iters", str(iters), "-rounds", str(rounds)]
@@ -490,10 +493,51 @@ def main(tier, seed, replay=None):
             path = C.write_replay(PROP, f"broken-{seed}-{nviol}.txt", body + "# the race drivers did not produce a report at these lines in this run\n")
             rep.violation(path, f"{len(vs)} unguarded entr(y/ies)/site(s), first {vs[0][:200]}, reached through {how[:200]}: Disciplined is false on the regenerated table", found=False)
         nviol += 1
-    # (b) races the table does not predict
+    # (b) races the table does not predict. A report is predicted when (1) one of its frames is at a line the
+    # table marks unguarded, or (2) the top frame of an access is at a site of a location that has an unguarded
+    # site somewhere (the racing partner's frame can be lost: runtime.mapiterinit, truncated history), or (3) a
+    # frame lies in a node that client code enters directly (escaped closure / method value / pointer) and from
+    # which an unguarded site is reachable (races on client objects read through such an access path).
+    line_sites = collections.defaultdict(list)
+    bad_locs = collections.defaultdict(set)
+    node_ranges = collections.defaultdict(list)
+    for d in (facts["domains"] if facts else []):
+        nodes = {n["key"]: n for n in d["nodes"]}
+        reach_bad = {}
+        def reaches_bad(k, seen=None):
+            if k in reach_bad:
+                return reach_bad[k]
+            seen = seen or set()
+            if k in seen or k not in nodes:
+                return False
+            seen.add(k)
+            r = any(not st["ok_strict"] for st in nodes[k]["sites"]) or any(reaches_bad(c["callee"], seen) for c in nodes[k]["calls"])
+            reach_bad[k] = r
+            return r
+        for n in d["nodes"]:
+            for st in n["sites"]:
+                line_sites[st["where"]].append((d["name"], st))
+                if not st["ok_strict"]:
+                    bad_locs[d["name"]].add(st["loc"])
+            f, _, ln = n["where"].rpartition(":")
+            direct = (not n["reach"]) or any(not e["what"].startswith("public method") for e in n["entries"])
+            if direct and reaches_bad(n["key"]):
+                node_ranges[f].append((int(ln), n["end_line"]))
+    def predicted(r):
+        if set(r["frames"]) & set(strict_lines):
+            return True
+        for t in r["tops"]:
+            for dn, st in line_sites.get(t, []):
+                if st["loc"] in bad_locs[dn]:
+                    return True
+        for fr in r["frames"]:
+            f, _, ln = fr.rpartition(":")
+            if any(a <= int(ln) <= b for a, b in node_ranges.get(f, [])):
+                return True
+        return False
     seen = set()
     for r in all_reports:
-        if any(t in strict_lines for t in r["tops"]) or any(f in strict_lines for f in r["frames"][:1]):
+        if predicted(r):
             continue
         key = tuple(r["tops"])
         if key in seen or nviol >= 8:
@@ -555,7 +599,7 @@ def main(tier, seed, replay=None):
                 "the extractor lists are driven (generated), so every pair is distinct; non-trivial = the pair ran to completion",
         "subjects": {r["subject"]: {"methods": r["methods"], "pairs": r["pairs"], "race_reports": len(r["reports"]), "wall_s": round(r["wall"], 1)} for r in results},
         "pairs_of_methods_driven": pairs, "races_reported": len(all_reports),
-        "races_at_unguarded_sites": sum(1 for r in all_reports if any(t in strict_lines for t in r["tops"])),
+        "races_at_unguarded_sites": sum(1 for r in all_reports if predicted(r)),
         "samples": sample, "traces_validated_against_impl": pairs,
         "extractor_notes": {d["name"]: d["notes"] for d in (facts["domains"] if facts else []) if d["notes"]},
     }
